@@ -39,6 +39,33 @@ check("C16", "ipcsim", "fault_enumeration",
       "deterministic simulation: scripted fake socket transport under the real serve loop, enumerated client-fault points + seeded fault sequences, reference-daemon oracle",
       "DESIGN.md 3/C16")
 
+check("C02", "histsim", "exploration",
+      "Seeded edit histories over generated multi-module projects (slots, uses, imports incl. cycles, module add/delete, stubs, syntax break/heal, inline config, touch) on all store x format configurations under a simulated mtime clock (gaps, forward jumps, back-jumps, sub-second gaps); after every run step the real CLI run on the shared cache is compared with a real CLI run on an empty cache. A clean batch is evidence, not proof.",
+      "Trusted: the cold run as oracle; typeshed replaced by lib-stub + fixture builtins; content-changing edits change (int(mtime), size) in the main campaign (the stall family drops this and is matched as a known finding by counterfactual replay); known-finding classifiers in sim/runner.py (only_once notes, partial output before a blocker).",
+      "deterministic simulation: seeded edit/run histories over a durable cache with a simulated mtime clock, warm-vs-cold oracle, ddmin-minimised replay op lists",
+      "DESIGN.md 3/C02")
+check("C04", "histsim", "fault_enumeration",
+      "Per scenario (project x store/format config x warm-up x edit x clock mode) the clean execution of the run after the edit is recorded, and every fault plan is executed from the same cache snapshot: crash before each mutating store op and after the last op, each single write / remove / commit failing through the store's own error path, torn temp-file write, all data / meta / meta_ex / all writes failing, plus sampled failure subsets; the following clean warm run must equal the cold run. Includes a determinism self-test.",
+      "Trusted: a completed syscall / committed sqlite transaction survives the kill (process death, not power loss); single-process build in this leg; scenarios are sampled by seed, plans per scenario are enumerated.",
+      "deterministic simulation with fault injection: store-op level crash-point and write-failure enumeration inside simulated runs, cold-run oracle",
+      "DESIGN.md 3/C04")
+check("C07", "parsched", "exploration",
+      "The shipped coordinator (build.build with num_workers=N) and shipped worker main run as real processes whose interleaving is owned by a seeded controller: workers park at a gate before every store op and every send, the controller replaces the coordinator's select() and draws one action (step worker i / deliver a subset of ready replies) at a time; free-worker choice is drawn too. Output must equal the sequential build; the cache left behind must serve later sequential and parallel warm runs; no record may be read by a worker before another worker writes it in the same run; no deadlock. Determinism self-test on every run.",
+      "Trusted: replies fit in the socket buffer; the sqlite shard lock is simulated (a write is not enabled while another worker holds an uncommitted write on that shard); workers are pre-forked slots instead of exec'd interpreters; typeshed replaced by fixtures.",
+      "deterministic simulation: seeded scheduler over gated real worker processes (baton passing at store-op and message granularity), sequential-build oracle",
+      "DESIGN.md 3/C07")
+check("C09", "histsim", "exploration",
+      "The complete flag table is read at run time from the real argument parser; every flag is either toggled (both directions, four runs per pair: cold A, cold B, warm B after A, warm A after B) or listed with a reason in the evidence. Witness programs are a kitchen-sink program plus the corpus cases of check-*.test whose '# flags:' line names the flag; carriers are the command line and [mypy] / [mypy-<module>] config sections.",
+      "Trusted: cold run as oracle; a toggle is only informative when cold(A) != cold(B) (counted as non-trivial); flags in flags_not_toggled are outside the check.",
+      "deterministic simulation: two-run histories sharing a durable cache with the option change as the event, enumerated over the parser's flag table",
+      "DESIGN.md 3/C09")
+check("C10", "histsim", "exploration",
+      "Nuisance variables are owned and varied one at a time: PYTHONHASHSEED (real interpreters started with different seeds run the same scenario at the same absolute path and simulated clock; stdout order and every cache record compared byte for byte, cold and warm, and -n under a fixed schedule script), order of file arguments on acyclic projects, directory listing order, and earlier unrelated builds (CLI, api.run, daemon Server, some failing) inside the same interpreter.",
+      "Trusted: K hash seeds are a sample; variants run sequentially in one directory because cache records embed absolute paths; typeshed replaced by fixtures.",
+      "deterministic simulation: controlled-variable histories (hash seed, argument order, listing order, in-process build history) with byte-level comparison of output and cache records",
+      "DESIGN.md 3/C10")
+
+
 def main():
     props = [json.loads(l)["id"] for l in open(os.path.join(os.path.dirname(__file__), "..", "properties.jsonl"))]
     na = [{"property_id": p, "reason": NA.get(p, "check not built yet in this session (planned, see DESIGN.md section 0); not claimed until its check exists and is clean on the unchanged tree")} for p in props if p not in CHECKS]
@@ -53,6 +80,8 @@ def main():
             "add_only": True,
         },
         "engines": [
+            {"name": "histsim", "path": "sim/histsim.py", "serves_properties": ["C02", "C04", "C09", "C10"], "kind_free_text": "edit/run histories over a durable cache: forked run children executing the real CLI with store, clock and fixture seams (sim/runner.py), world on tmpfs with simulated mtimes (sim/world.py), generated project model (sim/project.py) and corpus reader (sim/corpus.py)"},
+            {"name": "parsched", "path": "sim/parsched.py", "serves_properties": ["C07"], "kind_free_text": "seeded scheduler over gated real worker processes of a parallel build"},
             {"name": "ipcsim", "path": "sim/ipcsim.py", "serves_properties": ["C16"], "kind_free_text": "single-threaded pull simulation of the daemon's transport: accept/recv/sendall answered by a scenario op list"},
         ],
         "checks": [CHECKS[p] for p in props if p in CHECKS],
